@@ -942,6 +942,48 @@ func (c *Ctx) NilGuardedUses(key, fname string, producer IM, min int, desc, why 
 	c.ok(key, rule, desc, n)
 }
 
+// EveryIterationG: every iteration of the loop(s) whose "has next" branch
+// establishes hasNext performs an instruction matching effect before control
+// returns to the loop condition, unless it leaves by an edge establishing one of
+// the confirmed skip conditions. An added `continue` in front of the effect fails.
+func (c *Ctx) EveryIterationG(key, fname string, hasNext *Guard, effect IM, min int, desc, why string, skips ...*Guard) {
+	rule := "K3 After (every loop iteration)"
+	fn := c.F(fname)
+	if !c.need(key, rule, desc, fn, fname) {
+		return
+	}
+	n, bad := 0, ""
+	for _, b := range fn.Blocks {
+		for i, sb := range b.Succs {
+			if !c.P.EdgeAsserts(Edge{b, i}, hasNext) {
+				continue
+			}
+			hdr := b
+			inLoop := &Search{P: c.P, Fn: fn, Tgt: effect, Avoid: func(in ssa.Instruction) bool { return in.Block() == hdr }}
+			if inLoop.runFromBlock(sb) == nil {
+				continue // a loop with the same bound that does not contain the effect
+			}
+			n++
+			s := &Search{P: c.P, Fn: fn, Avoid: effect, Tgt: func(in ssa.Instruction) bool { return in.Block() == hdr }}
+			if len(skips) > 0 {
+				s.Block = c.P.EdgesAsserting(skips...)
+			}
+			if f := s.runFromBlock(sb); f != nil {
+				bad = "an iteration can return to the loop condition at " + c.P.Pos(firstPos(hdr)) + " without the effect and without a confirmed skip condition; path " + c.P.TraceString(f.Trace)
+			}
+		}
+	}
+	if bad != "" {
+		c.fail(key, rule, desc, why, bad, n)
+		return
+	}
+	if n < min {
+		c.fail(key, rule, desc, why, fmt.Sprintf("only %d loop(s) with the effect found in %s, expected >= %d", n, fname, min), n)
+		return
+	}
+	c.ok(key, rule, desc, n)
+}
+
 // EveryIteration: in fname, every iteration of the range loop whose iterator
 // renders as rangeRe performs an instruction matching effect (no path from the
 // loop's "has next" edge back to the loop header avoids it).
